@@ -52,7 +52,7 @@ Get(r, f, d) == IF f \in DOMAIN r THEN r[f] ELSE d
 SetOf(s)     == {s[i] : i \in DOMAIN s}
 
 V(pred, sig, w) == [pred |-> pred, sig |-> sig, w |-> ToString(w), line |-> l, ev |-> E.ev,
-                    s |-> Get(E, "s", -1), r |-> Get(E, "r", -1)]
+                    s |-> Get(E, "s", -1), r |-> Get(E, "r", -1), race |-> Get(E, "race", FALSE)]
 
 -----------------------------------------------------------------------------
 (* round *)
@@ -113,15 +113,24 @@ PanicViols ==
     \cup (IF Has(E, "statepanic") THEN {V(IF AnyFree THEN "Info_PanicAfterUnsynchronized" ELSE "Act_NoPanic",
                                           "panic-while-reading-state-after-round", E.statepanic)} ELSE {})
 
-\* Act_SequentialEquivalent
+\* Act_SequentialEquivalent.  The driver compares two projections of replies + end state with the sequential replay:
+\* the full one and its DETERMINED part (pods, containers, lifecycle states, resource requests, error/panic flags) -- which
+\* CPUs a container gets is not a function of the request order alone, sequentially either.  ctl_agree: independent
+\* sequential control replays all reproduce the first replay's determined part; ctl_explains: one of them reproduces the
+\* concurrent outcome.  first_diff: the first request (in lock order) after which the two runs differ -- both went through
+\* identical full states before it; when that first difference is one of allocation choice only (first_diff.det_same) the
+\* driver reports same_det = TRUE: everything that differs later follows from a choice the order does not determine.
 Eq == E.equiv
+Diff == Get(Eq, "diff", "")
 EquivViols ==
     IF ~Eq.checked THEN {}
-    ELSE IF Eq.same_state /\ Eq.same_replies THEN {}
-    ELSE IF ~Get(Eq, "ctl", FALSE) THEN {V("Info_SequentialReplayNotDeterministic", "control-replay-disagrees", Get(Eq, "diff", ""))}
-    ELSE IF Tainted # {} THEN {V("Info_DivergedAfterUnsynchronized", "after-unsynchronized", [kinds |-> TaintKinds, diff |-> Get(Eq, "diff", Get(Eq, "reply_diff", ""))])}
-    ELSE (IF ~Eq.same_state THEN {V("Act_SequentialEquivalent", "end-state-differs-from-sequential-replay:" \o Eq.level, Get(Eq, "diff", ""))} ELSE {})
-         \cup (IF ~Eq.same_replies THEN {V("Act_SequentialEquivalent", "reply-differs-from-sequential-replay", Get(Eq, "reply_diff", ""))} ELSE {})
+    ELSE IF Eq.same_full THEN {}
+    ELSE IF Eq.same_det THEN {V("Info_AllocationChoiceDiffers", "determined-part-equal", Diff)}
+    ELSE IF ~Get(Eq, "ctl_agree", FALSE) \/ Get(Eq, "ctl_explains", FALSE)
+         THEN {V("Info_SequentialReplayNotDeterministic", "control-replays-disagree-or-reproduce-the-concurrent-outcome", Diff)}
+    ELSE IF Tainted # {} THEN {V("Info_DivergedAfterUnsynchronized", "after-unsynchronized", [kinds |-> TaintKinds, diff |-> Diff])}
+    ELSE {V("Act_SequentialEquivalent", "determined-state-or-reply-flags-differ-from-sequential-replay",
+            [first |-> Get(Eq, "first_diff", <<>>), diff |-> Diff])}
 
 PushViols == IF Get(E, "pushed_outside_lock", 0) > 0
              THEN {V("Inv_Mutex", "update-pushed-outside-critical-section", E.pushed_outside_lock)} ELSE {}
